@@ -276,15 +276,20 @@ def strace_mutations(log_path, cwd):
             flags = fm.group(1) if fm else ""
             if not re.search(r"O_WRONLY|O_RDWR|O_CREAT|O_TRUNC|O_APPEND", flags):
                 continue
+        # *at calls: a path is relative to the directory of the descriptor given before it (strace -y prints it as N</dir>)
+        base = cwd
+        bm = re.match(r"\s*(?:AT_FDCWD|\d+)<([^>]*)>", rest)
+        if bm and sc.endswith("at") or bm and sc in ("renameat2",):
+            base = bm.group(1)
         for p in paths[:2] if sc.startswith(("rename", "link", "symlink")) else paths[:1]:
             if not os.path.isabs(p):
-                p = os.path.normpath(os.path.join(cwd, p))
+                p = os.path.normpath(os.path.join(base, p))
             out.append((sc, p, flags, ok))
     return out
 
 
 def run_strace(binp, cwd, args, log, timeout=60):
-    cmd = ["strace", "-f", "-e", "trace=file", "-o", log, binp] + list(args)
+    cmd = ["strace", "-f", "-y", "-e", "trace=file", "-o", log, binp] + list(args)
     try:
         p = common.sh(cmd, cwd=cwd, timeout=timeout)
         return {"rc": p.returncode, "out": p.stderr + p.stdout, "timeout": False}
